@@ -90,8 +90,39 @@ def marginal_export_building(rng):
     return b
 
 
+def dhw_cogen_building(rng):
+    """DHW by a heat pump, a large heating use and cogeneration fed by a nearby carrier: only a small part of the cogenerated
+    electricity goes to DHW, so that derived quantity is far smaller than every declared value"""
+    b = gen.Building()
+    n = rng.choice([1, 2, 12])
+    b.n = n
+    c = Fraction(rng.choice([1, 2, 3]), 16)
+    per = lambda x: [Fraction(x) * c / n] * n
+    b.add("DEMANDA", service="ACS", values=per(50))
+    b.add("CONSUMO", id=1, service="ACS", carrier="ELECTRICIDAD", values=per(20))
+    b.add("CONSUMO", id=1, service="ACS", carrier="EAMBIENTE", values=per(30))
+    b.add("CONSUMO", id=2, service="CAL", carrier="ELECTRICIDAD", values=per(rng.choice([2000, 4000])))
+    b.add("PRODUCCION", id=3, source="EL_COGEN", values=per(500))
+    b.add("CONSUMO", id=3, service="COGEN", carrier=rng.choice(["BIOMASA", "BIOMASADENSIFICADA"]), values=per(1250))
+    b.tags.add("dhw_cogen_marginal")
+    return b
+
+
 def make_pairs(rng, count):
     pairs = []
+    for i in range(max(2, count // 16)):
+        # the part of the cogenerated electricity that goes to DHW crosses 0.01 kWh between the two scales; every declared value
+        # stays >= 0.01 kWh
+        fspec, user = {"loc": rng.choice(core.LOCS)}, {}
+        k, area, lm = gen.gen_params(rng)
+        b = dhw_cogen_building(rng)
+        if b.n > 2:
+            continue
+        base = epflow.EpCase("d%d" % i, {"text": text_of(b)}, fspec, user, [(k, area, False)], tags=b.tags, want=["acs"])
+        kap = Fraction(1, 64) if b.n == 1 else Fraction(1, 32)
+        vb = metacheck.scale_building(b, kap)
+        v = epflow.EpCase("d%dk" % i, {"text": text_of(vb)}, fspec, user, [(k, area, False)], tags=b.tags, want=["acs"])
+        pairs.append((base, [(v, metacheck.relate_scaled(kap, per_step_scale(kap)), "DHW with cogeneration, energy x %s" % kap)]))
     for i in range(count // 8):
         fspec, user = {"loc": rng.choice(core.LOCS)}, {}
         k, area, lm = gen.gen_params(rng)
